@@ -276,11 +276,6 @@ Proof.
         as (A1 & A2 & A3 & A4 & A5 & A6 & A7); [intros [? ?]; unfold vc2 in *; lra|intros [? ?]; unfold vc2 in *; lra|].
       destruct s; gen_unfold; intros Ht; (split; [constructor; tcbn; fin|]); finish_post.
     + destruct (Rleb_spec vc2 (w0 * w0)) as [C5|C5]; destruct (Rltb_spec (w1 * w1) vc2) as [C6|C6]; cbn [andb]; try lra.
-      * (* deceleration only *)
-        destruct (Rltb_spec (w0 * w0 + 2 * (p1 - p0) * de) 0) as [C4|C4]; [intros; try lra|]. Show.
-        destruct (dec_alg V (if s then - R_sqrt.sqrt (w0 * w0 + 2 * (p1 - p0) * de) else R_sqrt.sqrt (w0 * w0 + 2 * (p1 - p0) * de))
-                    ac de p0 p1 w0 (Hdir _) HV Hw0 C4) as (A1 & A2 & A3).
-        destruct s; gen_unfold; intros Ht; (split; [constructor; tcbn; fin|]); finish_post.
       * (* both boundary speeds equal the peak (only possible with p = 0): acceleration, deceleration *)
         destruct (accdec_alg V (if s then - R_sqrt.sqrt vc2 else R_sqrt.sqrt vc2) ac de p0 p1 w0 w1 (Hdir _) HV Hw0 Hw1 C0 C1)
           as (A1 & A2 & A3 & A4 & A5 & A6 & A7); [intros [? ?]; unfold vc2 in *; lra|intros [? ?]; unfold vc2 in *; lra|].
